@@ -1099,7 +1099,7 @@ def plan(tier, verif_seed, scale=1.0):
     for kind in ("ptk", "ytk", "cidar", "ecoflex", "plant"):
         specs.append({"index": idx, "seed": kernel.run_seed(verif_seed, PROP, tier, idx), "mode": "sweep", "kind": kind})
         idx += 1
-    n_ff, n_f = (500, 500) if tier == "quick" else (12000, 14000)
+    n_ff, n_f = (700, 700) if tier == "quick" else (12000, 14000)
     for j in range(max(1, int(n_ff * scale))):
         specs.append({"index": idx, "seed": kernel.run_seed(verif_seed, PROP, tier, idx), "mode": "random", "faulty": False})
         idx += 1
